@@ -41,8 +41,8 @@ ASSUMPTIONS = [
 ALLOWED = {"EOFError", "ValueError", "UnicodeError", "UnicodeDecodeError", "UnicodeEncodeError", "UnicodeTranslateError"}
 ROOTS = [("Message", "fromStr"), ("_EDNSMessage", "fromStr")]
 HARMLESS = {"BytesIO", "len", "range", "set", "int", "getattr", "setattr", "log.msg", "struct.calcsize", "isinstance", "bool", "list", "tuple", "bytes",
-            "min", "max", "abs", "frozenset", "dict", "str", "repr"}
-HARMLESS_METHODS = {"append", "add", "tell", "seek", "read", "get", "getvalue", "items", "values", "keys", "lower", "upper", "extend"}
+            "min", "max", "abs", "frozenset", "dict", "str", "repr", "divmod", "bytearray"}   # bytes(n)/bytearray(n)/int(x) reject bad operands with ValueError (allowed)
+HARMLESS_METHODS = {"append", "add", "tell", "seek", "read", "get", "getvalue", "items", "values", "keys", "lower", "upper", "extend", "to_bytes", "from_bytes"}
 RAISERS = {  # callee -> exception it raises on hostile operands
     "socket.inet_ntoa": "OSError", "socket.inet_ntop": "OSError", "socket.inet_aton": "OSError", "socket.inet_pton": "OSError",
     "struct.pack": "struct.error", "pack": "struct.error", "struct.unpack_from": "struct.error", "chr": "ValueError", "nativeString": "UnicodeError",
@@ -306,6 +306,165 @@ class Sizes:
         return None
 
 
+def _fmt_template(e, sz: "Sizes", depth: int = 0):
+    """A struct format built at run time -> list of ("lit", text) | ("count", expr) | ("repeat", text, expr); None if the shape is not
+    one of: literal, "..%d.." % operands, f-string, literal * n, concatenation, a local bound to one of these."""
+    if depth > 6:
+        return None
+    v = sz.ceval(e)
+    if isinstance(v, str):
+        return [("lit", v)]
+    if isinstance(e, ast.Name) and e.id in sz.defs:
+        return _fmt_template(sz.defs[e.id], sz, depth + 1)
+    if isinstance(e, ast.JoinedStr):
+        out = []
+        for part in e.values:
+            if isinstance(part, ast.Constant):
+                out.append(("lit", str(part.value)))
+            elif isinstance(part, ast.FormattedValue) and part.format_spec is None and part.conversion == -1:
+                out.append(("count", part.value))
+            else:
+                return None
+        return out
+    if isinstance(e, ast.BinOp) and isinstance(e.op, ast.Add):
+        a, b = _fmt_template(e.left, sz, depth + 1), _fmt_template(e.right, sz, depth + 1)
+        return a + b if a is not None and b is not None else None
+    if isinstance(e, ast.BinOp) and isinstance(e.op, ast.Mult):
+        for lit, n in ((e.left, e.right), (e.right, e.left)):
+            t = sz.ceval(lit)
+            if isinstance(t, str):
+                return [("repeat", t, n)]
+        return None
+    if isinstance(e, ast.BinOp) and isinstance(e.op, ast.Mod):
+        t = sz.ceval(e.left)
+        if not isinstance(t, str):
+            return None
+        ops = list(e.right.elts) if isinstance(e.right, ast.Tuple) else [e.right]
+        out = []
+        i = 0
+        buf = ""
+        while i < len(t):
+            if t[i] == "%" and i + 1 < len(t):
+                if t[i + 1] == "%":
+                    buf += "%"
+                    i += 2
+                    continue
+                if t[i + 1] in "di" and ops:
+                    if buf:
+                        out.append(("lit", buf))
+                        buf = ""
+                    out.append(("count", ops.pop(0)))
+                    i += 2
+                    continue
+                return None
+            buf += t[i]
+            i += 1
+        if buf:
+            out.append(("lit", buf))
+        return out if not ops else None
+    return None
+
+
+def _render(parts, values) -> str:
+    out = ""
+    k = 0
+    for p in parts:
+        if p[0] == "lit":
+            out += p[1]
+        elif p[0] == "count":
+            out += str(values[k])
+            k += 1
+        else:
+            out += p[1] * values[k]
+            k += 1
+    return out
+
+
+def _template_size(parts):
+    """(base, [(unit, operand expr)]) for a run-time format without alignment padding; None if not linear / not a valid format."""
+    ops = [p[-1] for p in parts if p[0] != "lit"]
+    first = next((p[1] for p in parts if p[0] == "lit"), "")
+    if not first or first[0] not in "!<>=":
+        return None
+    try:
+        base = struct.calcsize(_render(parts, [0] * len(ops)))
+        units = []
+        for i in range(len(ops)):
+            one = [0] * len(ops)
+            one[i] = 1
+            two = [0] * len(ops)
+            two[i] = 2
+            u1 = struct.calcsize(_render(parts, one)) - base
+            u2 = struct.calcsize(_render(parts, two)) - base
+            if u2 != 2 * u1:
+                return None
+            units.append((u1, ops[i]))
+    except struct.error:
+        return None
+    return base, units
+
+
+def _read_size_expr(e, sz: "Sizes", depth: int = 0) -> Optional[str]:
+    """Source text of an integer expression giving len(e) for byte strings built from readPrecisely / constants."""
+    if depth > 6:
+        return None
+    if isinstance(e, ast.Name) and e.id in sz.defs:
+        return _read_size_expr(sz.defs[e.id], sz, depth + 1)
+    if isinstance(e, ast.Call) and call_name(e) == "readPrecisely" and len(e.args) == 2:
+        return "(" + src(expand(e.args[1], sz.defs)) + ")"
+    if isinstance(e, ast.Constant) and isinstance(e.value, bytes):
+        return str(len(e.value))
+    if isinstance(e, ast.BinOp) and isinstance(e.op, ast.Add):
+        a, b = _read_size_expr(e.left, sz, depth + 1), _read_size_expr(e.right, sz, depth + 1)
+        return f"{a} + {b}" if a and b else None
+    return None
+
+
+def _nonneg_established(g, node_ids, operand, sz: "Sizes", consts) -> bool:
+    """Some test edge dominating every node implies ``operand >= 0``."""
+    want = lincmp(ast.Compare(left=expand(operand, sz.defs), ops=[ast.GtE()], comparators=[ast.Constant(value=0)]), consts)
+    if want is None:
+        return False
+    if not want[0]:
+        return want[1] <= 0      # a constant
+    for n in node_ids:
+        ok = False
+        for t, lab in g.edge_guards(n):
+            fm = lincmp(expand(g.node(t).ast, sz.defs), consts, negate=(lab == "F"))
+            if fm is not None and fm[0] == want[0] and fm[1] >= want[1]:
+                ok = True
+        if not ok:
+            return False
+    return bool(node_ids)
+
+
+def check_computed_format(ctx, fam, q, g, sz: "Sizes", call, what: str) -> None:
+    """struct.unpack/calcsize whose format string is assembled from message-derived values."""
+    cons = ctx.construct(q, call)
+    parts = _fmt_template(call.args[0], sz)
+    if parts is None:
+        _fail(f"{q}: the struct format of {src(call)} is neither constant nor built by %/f-string/repetition from recognisable operands")
+    ts = _template_size(parts)
+    if ts is None:
+        _fail(f"{q}: the run-time struct format of {src(call)} is not linear in its counts (native alignment or invalid literal part)")
+    base, units = ts
+    ids = g.ids_of(call)
+    handled = _handled(g, ids, "struct.error")
+    for unit, op in units:
+        ok = handled or _nonneg_established(g, ids, op, sz, fam.consts)
+        ctx.check(ok, "escape/computed-format", cons + f" | count {src(op)}",
+                  f"the repeat count `{src(op)}` of the struct format comes from the message and nothing establishes `{src(op)} >= 0` before {what}: "
+                  f"for a negative value the format is e.g. {_render(parts, [-2] * len(units))!r} and struct.error (neither EOFError nor ValueError) escapes the decoder")
+    if what == "struct.unpack" and len(call.args) == 2:
+        have = _read_size_expr(call.args[1], sz)
+        if have is None:
+            _fail(f"{q}: cannot determine the length of the unpacked bytes in {src(call)}")
+        need = str(base) + "".join(f" + {u} * ({src(expand(op, sz.defs))})" for u, op in units)
+        same = lin_equal(ast.parse(need, mode="eval").body, ast.parse(have, mode="eval").body, {}, fam.consts)
+        ctx.check(same or handled, "escape/unpack-size", cons,
+                  f"struct.unpack needs `{need}` bytes for this run-time format but is given `{have}` bytes: struct.error escapes when they differ")
+
+
 def _percent_count(fmt: str) -> Optional[int]:
     n = 0
     i = 0
@@ -330,114 +489,127 @@ def check_escape(ctx, fam: Family):
         sz = Sizes(fam, key, f)
         params = [a.arg for a in f.args.args]
         length_param = params[2] if len(params) > 2 and key[1] == "decode" else None
-        for n in body_walk(f):
-            # ---- explicit raises
-            if isinstance(n, ast.Raise):
-                n_raise += 1
-                ids = g.ids_of(n)
-                if n.exc is None:
-                    hs = [h for h in ast.walk(f) if isinstance(h, ast.ExceptHandler) and any(x is n for x in ast.walk(h))]
-                    ok = bool(hs) and hs[-1].type is not None and all(_exc_allowed(mod, dotted(t) or "?") for t in (hs[-1].type.elts if isinstance(hs[-1].type, ast.Tuple) else [hs[-1].type]))
-                    ctx.check(ok, "escape/explicit-raise", ctx.construct(q, n), "a bare `raise` re-raises an exception type that the DNS protocols do not treat as a malformed packet")
-                    continue
-                e = n.exc.func if isinstance(n.exc, ast.Call) else n.exc
-                name = dotted(e) or "?"
-                if _exc_allowed(mod, name):
-                    ctx.ok("escape/explicit-raise", ctx.construct(q, n), name)
-                    continue
-                under_none = length_param is not None and any(src(g.node(t).ast) == f"{length_param} is None" and lab == "T" for i in ids for t, lab in g.edge_guards(i))
-                if under_none:
-                    ctx.ok("escape/explicit-raise", ctx.construct(q, n), f"only when `{length_param} is None`; every family call site supplies the length (rule escape/length-supplied)")
-                    continue
-                if _handled(g, ids, name.split(".")[-1]):
-                    ctx.ok("escape/explicit-raise", ctx.construct(q, n), "caught inside the function")
-                    continue
-                ctx.violation("escape/explicit-raise", ctx.construct(q, n), f"decoding can raise {name}, which is neither EOFError nor ValueError: the UDP/TCP protocols do not treat it as a malformed packet")
-            # ---- struct.unpack size agreement
-            if isinstance(n, ast.Call) and call_name(n) in ("struct.unpack", "unpack"):
-                n_unpack += 1
-                cons = ctx.construct(q, n)
-                if len(n.args) != 2:
-                    _fail(f"{q}: unpack() call shape not recognised: {src(n)}")
-                fmt = sz.ceval(n.args[0])
-                size = sz.size(n.args[1])
-                if not isinstance(fmt, str):
-                    _fail(f"{q}: struct format of {src(n)} is not a constant")
-                need = struct.calcsize(fmt)
-                if size is None:
-                    _fail(f"{q}: cannot determine the length of the unpacked bytes in {src(n)}")
-                if _handled(g, g.ids_of(n), "struct.error"):
-                    ctx.ok("escape/unpack-size", cons, "struct.error handled locally")
-                elif size == "var":
-                    ctx.violation("escape/unpack-size", cons, f"struct.unpack({fmt!r}) needs exactly {need} bytes but is given a byte string whose length depends on the message: struct.error escapes")
-                else:
-                    ctx.check(size == need, "escape/unpack-size", cons, f"struct.unpack({fmt!r}) needs exactly {need} bytes, readPrecisely supplies {size}: every message reaching this point raises struct.error")
-            # ---- ord() of a single byte
-            if isinstance(n, ast.Call) and call_name(n) == "ord" and len(n.args) == 1:
-                n_ord += 1
-                size = sz.size(n.args[0])
-                ok = size == 1 or _handled(g, g.ids_of(n), "TypeError")
-                ctx.check(ok, "escape/ord-single-byte", ctx.construct(q, n), f"ord() is applied to a byte string of length {size!r} (must be exactly 1): TypeError escapes")
-            # ---- known raisers
-            if isinstance(n, ast.Call) and call_name(n) in RAISERS:
-                exc = RAISERS[call_name(n)]
-                ok = _exc_allowed(mod, exc) or _handled(g, g.ids_of(n), exc.split(".")[-1] if exc != "struct.error" else "struct.error")
-                ctx.check(ok, "escape/raising-callee", ctx.construct(q, n), f"{call_name(n)}() raises {exc} on hostile operands and nothing here converts it")
-            # ---- subscripts
-            if isinstance(n, ast.Subscript) and isinstance(n.ctx, ast.Load) and not isinstance(n.slice, ast.Slice):
-                cons = ctx.construct(q, n)
-                base = src(n.value)
-                try:
-                    idx = const_eval(n.slice, fam.consts)
-                except NotConst:
-                    idx = None
-                if base in TABLES or (isinstance(n.value, ast.Name) and isinstance(mod.module_assign(n.value.id), ast.Dict)):
-                    ok = _handled(g, g.ids_of(n), "KeyError")
-                    ctx.check(ok, "escape/table-lookup", cons, f"{base}[...] is indexed with a value taken from the message: an unknown code raises KeyError (use .get with a default)")
-                    continue
-                if isinstance(idx, int) and not isinstance(idx, bool):
-                    n_idx += 1
-                    v = expand(n.value, sz.defs)
-                    if isinstance(v, ast.Call) and call_name(v) in ("struct.unpack", "unpack"):
-                        fmt = sz.ceval(v.args[0])
-                        cnt = struct_field_count(fmt) if isinstance(fmt, str) else 0
-                        ctx.check(-cnt <= idx < cnt, "escape/constant-index", cons, f"index {idx} into the {cnt} values produced by unpack({fmt!r})")
+        with ctx.section(f"escape {q}"):
+            for n in body_walk(f):
+                # ---- explicit raises
+                if isinstance(n, ast.Raise):
+                    n_raise += 1
+                    ids = g.ids_of(n)
+                    if n.exc is None:
+                        hs = [h for h in ast.walk(f) if isinstance(h, ast.ExceptHandler) and any(x is n for x in ast.walk(h))]
+                        ok = bool(hs) and hs[-1].type is not None and all(_exc_allowed(mod, dotted(t) or "?") for t in (hs[-1].type.elts if isinstance(hs[-1].type, ast.Tuple) else [hs[-1].type]))
+                        ctx.check(ok, "escape/explicit-raise", ctx.construct(q, n), "a bare `raise` re-raises an exception type that the DNS protocols do not treat as a malformed packet")
                         continue
-                    # a sequence under a length guard
-                    ok = False
-                    for i in g.ids_of(n):
-                        for t, lab in g.edge_guards(i):
-                            te = g.node(t).ast
-                            if isinstance(te, ast.Compare) and len(te.ops) == 1 and isinstance(te.ops[0], ast.Eq) and src(te.left) == f"len({base})" and lab == "T":
-                                try:
-                                    ok = ok or const_eval(te.comparators[0], fam.consts) > idx >= 0
-                                except (NotConst, TypeError):
-                                    pass
-                            fm = lincmp(te, fam.consts, negate=(lab == "F"))
-                            if fm is not None and fm[0] == frozenset({(f"len({base})", 1)}) and fm[1] >= idx + 1 and idx >= 0:
-                                ok = True
-                    size = sz.size(n.value)
-                    if isinstance(size, int) and 0 <= idx < size:
-                        ok = True
-                    ok = ok or _handled(g, g.ids_of(n), "IndexError")
-                    ctx.check(ok, "escape/constant-index", cons, f"{base}[{idx}] is evaluated without a guard on len({base}): a short message raises IndexError")
-                    continue
-                # variable index on something that is not a table
-                ok = _handled(g, g.ids_of(n), "IndexError") and _handled(g, g.ids_of(n), "KeyError")
-                ctx.check(ok, "escape/variable-index", cons, f"{src(n)} is indexed with a computed value: IndexError/KeyError can escape")
-            # ---- arithmetic that raises on data
-            if isinstance(n, ast.BinOp) and isinstance(n.op, (ast.Div, ast.FloorDiv, ast.Mod, ast.LShift, ast.RShift, ast.Pow)):
-                cons = ctx.construct(q, n)
-                if isinstance(n.op, ast.Mod) and isinstance(n.left, ast.Constant) and isinstance(n.left.value, (str, bytes)):
-                    want = _percent_count(n.left.value if isinstance(n.left.value, str) else n.left.value.decode("latin-1"))
-                    have = len(n.right.elts) if isinstance(n.right, ast.Tuple) else 1
-                    ctx.check(want is not None and want == have, "escape/format-operands", cons, f"the format string has {want} conversions for {have} operands: TypeError escapes")
-                    continue
-                rc = sz.ceval(n.right)
-                okc = isinstance(rc, (int, float)) and not isinstance(rc, bool) and (rc != 0 if isinstance(n.op, (ast.Div, ast.FloorDiv, ast.Mod)) else 0 <= rc <= 64)
-                exc = "ZeroDivisionError" if isinstance(n.op, (ast.Div, ast.FloorDiv, ast.Mod)) else "ValueError"
-                ctx.check(okc or exc == "ValueError" or _handled(g, g.ids_of(n), exc), "escape/arithmetic", cons,
-                          f"the right operand of `{src(n)}` comes from the message: {exc} can escape")
+                    e = n.exc.func if isinstance(n.exc, ast.Call) else n.exc
+                    name = dotted(e) or "?"
+                    if _exc_allowed(mod, name):
+                        ctx.ok("escape/explicit-raise", ctx.construct(q, n), name)
+                        continue
+                    under_none = length_param is not None and any(src(g.node(t).ast) == f"{length_param} is None" and lab == "T" for i in ids for t, lab in g.edge_guards(i))
+                    if under_none:
+                        ctx.ok("escape/explicit-raise", ctx.construct(q, n), f"only when `{length_param} is None`; every family call site supplies the length (rule escape/length-supplied)")
+                        continue
+                    if _handled(g, ids, name.split(".")[-1]):
+                        ctx.ok("escape/explicit-raise", ctx.construct(q, n), "caught inside the function")
+                        continue
+                    ctx.violation("escape/explicit-raise", ctx.construct(q, n), f"decoding can raise {name}, which is neither EOFError nor ValueError: the UDP/TCP protocols do not treat it as a malformed packet")
+                # ---- struct.unpack size agreement
+                if isinstance(n, ast.Call) and call_name(n) in ("struct.unpack", "unpack"):
+                    n_unpack += 1
+                    cons = ctx.construct(q, n)
+                    if len(n.args) != 2:
+                        _fail(f"{q}: unpack() call shape not recognised: {src(n)}")
+                    fmt = sz.ceval(n.args[0])
+                    if not isinstance(fmt, str):
+                        check_computed_format(ctx, fam, q, g, sz, n, "struct.unpack")
+                        continue
+                    size = sz.size(n.args[1])
+                    need = struct.calcsize(fmt)
+                    if size is None:
+                        _fail(f"{q}: cannot determine the length of the unpacked bytes in {src(n)}")
+                    if _handled(g, g.ids_of(n), "struct.error"):
+                        ctx.ok("escape/unpack-size", cons, "struct.error handled locally")
+                    elif size == "var":
+                        ctx.violation("escape/unpack-size", cons, f"struct.unpack({fmt!r}) needs exactly {need} bytes but is given a byte string whose length depends on the message: struct.error escapes")
+                    else:
+                        ctx.check(size == need, "escape/unpack-size", cons, f"struct.unpack({fmt!r}) needs exactly {need} bytes, readPrecisely supplies {size}: every message reaching this point raises struct.error")
+                if isinstance(n, ast.Call) and call_name(n) in ("struct.calcsize", "calcsize", "struct.Struct", "struct.iter_unpack") and n.args:
+                    if not isinstance(sz.ceval(n.args[0]), str):
+                        check_computed_format(ctx, fam, q, g, sz, n, call_name(n))
+                # ---- computed counts handed to callees that reject them with a disallowed exception
+                if isinstance(n, ast.Call) and call_attr(n) == "to_bytes" and n.args and not isinstance(sz.ceval(n.args[0]), int):
+                    ok = _handled(g, g.ids_of(n), "OverflowError")
+                    ctx.check(ok, "escape/raising-callee", ctx.construct(q, n), "int.to_bytes() with a length taken from the message raises OverflowError when the value does not fit")
+                if isinstance(n, ast.Call) and call_name(n) == "divmod" and len(n.args) == 2:
+                    d = sz.ceval(n.args[1])
+                    ok = (isinstance(d, (int, float)) and d != 0) or _handled(g, g.ids_of(n), "ZeroDivisionError")
+                    ctx.check(ok, "escape/arithmetic", ctx.construct(q, n), f"divmod() by `{src(n.args[1])}`, a value from the message: ZeroDivisionError can escape")
+                # ---- ord() of a single byte
+                if isinstance(n, ast.Call) and call_name(n) == "ord" and len(n.args) == 1:
+                    n_ord += 1
+                    size = sz.size(n.args[0])
+                    ok = size == 1 or _handled(g, g.ids_of(n), "TypeError")
+                    ctx.check(ok, "escape/ord-single-byte", ctx.construct(q, n), f"ord() is applied to a byte string of length {size!r} (must be exactly 1): TypeError escapes")
+                # ---- known raisers
+                if isinstance(n, ast.Call) and call_name(n) in RAISERS:
+                    exc = RAISERS[call_name(n)]
+                    ok = _exc_allowed(mod, exc) or _handled(g, g.ids_of(n), exc.split(".")[-1] if exc != "struct.error" else "struct.error")
+                    ctx.check(ok, "escape/raising-callee", ctx.construct(q, n), f"{call_name(n)}() raises {exc} on hostile operands and nothing here converts it")
+                # ---- subscripts
+                if isinstance(n, ast.Subscript) and isinstance(n.ctx, ast.Load) and not isinstance(n.slice, ast.Slice):
+                    cons = ctx.construct(q, n)
+                    base = src(n.value)
+                    try:
+                        idx = const_eval(n.slice, fam.consts)
+                    except NotConst:
+                        idx = None
+                    if base in TABLES or (isinstance(n.value, ast.Name) and isinstance(mod.module_assign(n.value.id), ast.Dict)):
+                        ok = _handled(g, g.ids_of(n), "KeyError")
+                        ctx.check(ok, "escape/table-lookup", cons, f"{base}[...] is indexed with a value taken from the message: an unknown code raises KeyError (use .get with a default)")
+                        continue
+                    if isinstance(idx, int) and not isinstance(idx, bool):
+                        n_idx += 1
+                        v = expand(n.value, sz.defs)
+                        if isinstance(v, ast.Call) and call_name(v) in ("struct.unpack", "unpack"):
+                            fmt = sz.ceval(v.args[0])
+                            cnt = struct_field_count(fmt) if isinstance(fmt, str) else 0
+                            ctx.check(-cnt <= idx < cnt, "escape/constant-index", cons, f"index {idx} into the {cnt} values produced by unpack({fmt!r})")
+                            continue
+                        # a sequence under a length guard
+                        ok = False
+                        for i in g.ids_of(n):
+                            for t, lab in g.edge_guards(i):
+                                te = g.node(t).ast
+                                if isinstance(te, ast.Compare) and len(te.ops) == 1 and isinstance(te.ops[0], ast.Eq) and src(te.left) == f"len({base})" and lab == "T":
+                                    try:
+                                        ok = ok or const_eval(te.comparators[0], fam.consts) > idx >= 0
+                                    except (NotConst, TypeError):
+                                        pass
+                                fm = lincmp(te, fam.consts, negate=(lab == "F"))
+                                if fm is not None and fm[0] == frozenset({(f"len({base})", 1)}) and fm[1] >= idx + 1 and idx >= 0:
+                                    ok = True
+                        size = sz.size(n.value)
+                        if isinstance(size, int) and 0 <= idx < size:
+                            ok = True
+                        ok = ok or _handled(g, g.ids_of(n), "IndexError")
+                        ctx.check(ok, "escape/constant-index", cons, f"{base}[{idx}] is evaluated without a guard on len({base}): a short message raises IndexError")
+                        continue
+                    # variable index on something that is not a table
+                    ok = _handled(g, g.ids_of(n), "IndexError") and _handled(g, g.ids_of(n), "KeyError")
+                    ctx.check(ok, "escape/variable-index", cons, f"{src(n)} is indexed with a computed value: IndexError/KeyError can escape")
+                # ---- arithmetic that raises on data
+                if isinstance(n, ast.BinOp) and isinstance(n.op, (ast.Div, ast.FloorDiv, ast.Mod, ast.LShift, ast.RShift, ast.Pow)):
+                    cons = ctx.construct(q, n)
+                    if isinstance(n.op, ast.Mod) and isinstance(n.left, ast.Constant) and isinstance(n.left.value, (str, bytes)):
+                        want = _percent_count(n.left.value if isinstance(n.left.value, str) else n.left.value.decode("latin-1"))
+                        have = len(n.right.elts) if isinstance(n.right, ast.Tuple) else 1
+                        ctx.check(want is not None and want == have, "escape/format-operands", cons, f"the format string has {want} conversions for {have} operands: TypeError escapes")
+                        continue
+                    rc = sz.ceval(n.right)
+                    okc = isinstance(rc, (int, float)) and not isinstance(rc, bool) and (rc != 0 if isinstance(n.op, (ast.Div, ast.FloorDiv, ast.Mod)) else 0 <= rc <= 64)
+                    exc = "ZeroDivisionError" if isinstance(n.op, (ast.Div, ast.FloorDiv, ast.Mod)) else "ValueError"
+                    ctx.check(okc or exc == "ValueError" or _handled(g, g.ids_of(n), exc), "escape/arithmetic", cons,
+                              f"the right operand of `{src(n)}` comes from the message: {exc} can escape")
     ctx.floor("escape/unpack-size", n_unpack, 15, "struct.unpack sites")
     ctx.floor("escape/ord-single-byte", n_ord, 3, "ord() sites")
     ctx.floor("escape/explicit-raise", n_raise, 2, "raise statements")
@@ -567,71 +739,72 @@ def check_termination(ctx, fam: Family):
     # (2) loops
     n_loops = 0
     for key, f in sorted(fam.funcs.items()):
-        q = fam.qual(key)
-        g = ctx.cfg(f)
-        sz = Sizes(fam, key, f)
-        strio = f.args.args[1].arg if len(f.args.args) > 1 else None
-        for lp in [x for x in body_walk(f) if isinstance(x, (ast.For, ast.While))]:
-            n_loops += 1
-            cons = ctx.construct(q, lp)
-            if isinstance(lp, ast.For):
-                it = expand(lp.iter, sz.defs)
-                finite = False
-                if isinstance(it, ast.Call) and call_name(it) == "range":
-                    finite = True
-                elif isinstance(it, (ast.Tuple, ast.List)):
-                    finite = True
-                elif isinstance(it, (ast.Attribute, ast.Name)):
-                    # iterating a list attribute: it must not grow inside the loop
-                    grows = [c for c in ast.walk(lp) if isinstance(c, ast.Call) and call_attr(c) in ("append", "extend", "insert") and src(c.func.value) == src(lp.iter)]
-                    finite = not grows
-                ctx.check(finite, "termination/for-finite", cons, f"the loop iterates over `{src(lp.iter)}`, which is not a finite sequence fixed before the loop")
-                continue
-            # while loops
-            heads = g.ids(lambda n: n.kind == "join" and n.ast is lp)
-            if not heads:
-                _fail(f"{q}: loop head not found in the CFG")
-            body_ids = {id(x) for st in lp.body for x in ast.walk(st)}
-            seeks = g.find(lambda x: isinstance(x, ast.Call) and call_attr(x) == "seek" and id(x) in body_ids)
-            # progress nodes: reads of >= 1 byte, family decodes that read >= 1 byte on every path, strict counter advance
-            progress = set()
-            for n in g.ids(lambda n: n.ast is not None and n.kind in ("stmt", "test")):
-                node = g.node(n)
-                if not any(id(x) in body_ids for x in walk_local(node.ast)):
+        with ctx.section(f"termination {fam.qual(key)}"):
+            q = fam.qual(key)
+            g = ctx.cfg(f)
+            sz = Sizes(fam, key, f)
+            strio = f.args.args[1].arg if len(f.args.args) > 1 else None
+            for lp in [x for x in body_walk(f) if isinstance(x, (ast.For, ast.While))]:
+                n_loops += 1
+                cons = ctx.construct(q, lp)
+                if isinstance(lp, ast.For):
+                    it = expand(lp.iter, sz.defs)
+                    finite = False
+                    if isinstance(it, ast.Call) and call_name(it) == "range":
+                        finite = True
+                    elif isinstance(it, (ast.Tuple, ast.List)):
+                        finite = True
+                    elif isinstance(it, (ast.Attribute, ast.Name)):
+                        # iterating a list attribute: it must not grow inside the loop
+                        grows = [c for c in ast.walk(lp) if isinstance(c, ast.Call) and call_attr(c) in ("append", "extend", "insert") and src(c.func.value) == src(lp.iter)]
+                        finite = not grows
+                    ctx.check(finite, "termination/for-finite", cons, f"the loop iterates over `{src(lp.iter)}`, which is not a finite sequence fixed before the loop")
                     continue
-                for x in walk_local(node.ast):
-                    if isinstance(x, ast.Call) and call_name(x) == "readPrecisely":
-                        v = sz.ceval(x.args[1]) if len(x.args) == 2 else None
-                        if isinstance(v, int) and v >= 1:
-                            progress.add(n)
-                    if isinstance(x, ast.Call) and call_attr(x) == "decode" and isinstance(x.func.value, ast.Name):
-                        for cn in fam.local_classes(f, key[0], x.func.value.id):
-                            cf = fam.func(cn, "decode")
-                            if cf is not None and _reads_on_every_path(ctx, fam, (cn, "decode"), cf):
+                # while loops
+                heads = g.ids(lambda n: n.kind == "join" and n.ast is lp)
+                if not heads:
+                    _fail(f"{q}: loop head not found in the CFG")
+                body_ids = {id(x) for st in lp.body for x in ast.walk(st)}
+                seeks = g.find(lambda x: isinstance(x, ast.Call) and call_attr(x) == "seek" and id(x) in body_ids)
+                # progress nodes: reads of >= 1 byte, family decodes that read >= 1 byte on every path, strict counter advance
+                progress = set()
+                for n in g.ids(lambda n: n.ast is not None and n.kind in ("stmt", "test")):
+                    node = g.node(n)
+                    if not any(id(x) in body_ids for x in walk_local(node.ast)):
+                        continue
+                    for x in walk_local(node.ast):
+                        if isinstance(x, ast.Call) and call_name(x) == "readPrecisely":
+                            v = sz.ceval(x.args[1]) if len(x.args) == 2 else None
+                            if isinstance(v, int) and v >= 1:
                                 progress.add(n)
-            counter_ok = False
-            t = lp.test
-            if isinstance(t, ast.Compare) and len(t.ops) == 1 and isinstance(t.ops[0], (ast.Lt, ast.LtE)) and isinstance(t.left, ast.Name):
-                ctr = t.left.id
-                incs = [st for st in lp.body if isinstance(st, ast.AugAssign) and isinstance(st.target, ast.Name) and st.target.id == ctr and isinstance(st.op, ast.Add)]
-                others = [st for st in ast.walk(lp) if isinstance(st, (ast.Assign, ast.AugAssign)) and st not in incs and any(isinstance(x, ast.Name) and x.id == ctr and isinstance(x.ctx, ast.Store) for x in ast.walk(st))]
-                if len(incs) == 1 and not others:
-                    fm = lincmp(ast.Compare(left=fresh(incs[0].value), ops=[ast.GtE()], comparators=[ast.Constant(value=1)]), fam.consts)
-                    # increment = sum(nonnegative terms) + c with c >= 1: terms must be unsigned unpack results
-                    if fm is not None:
-                        terms, c = fm
-                        nonneg = all(coef > 0 and _is_unsigned_local(f, sz, name) for name, coef in terms)
-                        counter_ok = nonneg and (1 - c) >= 1   # value - 1 >= 0  <=>  terms >= c ; c = 1 - const
-                        if counter_ok:
-                            progress.update(n for st in incs for n in g.ids_of(st))
-            if seeks:
-                # Name.decode style: seeking is allowed only under the visited-set discipline
-                _check_pointer_loop(ctx, fam, key, f, g, lp, heads, seeks, progress, cons)
-                continue
-            back = g.path([d for h in heads for d, l in g.succ[h] if d not in progress], heads, avoid=progress, edge_ok=lambda a, b, l: l != "exc")
-            ctx.check(back is None, "termination/while-progress", cons,
-                      "an iteration of this loop can complete without consuming input or advancing its counter: a crafted message keeps the decoder spinning",
-                      witness=g.describe(back))
+                        if isinstance(x, ast.Call) and call_attr(x) == "decode" and isinstance(x.func.value, ast.Name):
+                            for cn in fam.local_classes(f, key[0], x.func.value.id):
+                                cf = fam.func(cn, "decode")
+                                if cf is not None and _reads_on_every_path(ctx, fam, (cn, "decode"), cf):
+                                    progress.add(n)
+                counter_ok = False
+                t = lp.test
+                if isinstance(t, ast.Compare) and len(t.ops) == 1 and isinstance(t.ops[0], (ast.Lt, ast.LtE)) and isinstance(t.left, ast.Name):
+                    ctr = t.left.id
+                    incs = [st for st in lp.body if isinstance(st, ast.AugAssign) and isinstance(st.target, ast.Name) and st.target.id == ctr and isinstance(st.op, ast.Add)]
+                    others = [st for st in ast.walk(lp) if isinstance(st, (ast.Assign, ast.AugAssign)) and st not in incs and any(isinstance(x, ast.Name) and x.id == ctr and isinstance(x.ctx, ast.Store) for x in ast.walk(st))]
+                    if len(incs) == 1 and not others:
+                        fm = lincmp(ast.Compare(left=fresh(incs[0].value), ops=[ast.GtE()], comparators=[ast.Constant(value=1)]), fam.consts)
+                        # increment = sum(nonnegative terms) + c with c >= 1: terms must be unsigned unpack results
+                        if fm is not None:
+                            terms, c = fm
+                            nonneg = all(coef > 0 and _is_unsigned_local(f, sz, name) for name, coef in terms)
+                            counter_ok = nonneg and (1 - c) >= 1   # value - 1 >= 0  <=>  terms >= c ; c = 1 - const
+                            if counter_ok:
+                                progress.update(n for st in incs for n in g.ids_of(st))
+                if seeks:
+                    # Name.decode style: seeking is allowed only under the visited-set discipline
+                    _check_pointer_loop(ctx, fam, key, f, g, lp, heads, seeks, progress, cons)
+                    continue
+                back = g.path([d for h in heads for d, l in g.succ[h] if d not in progress], heads, avoid=progress, edge_ok=lambda a, b, l: l != "exc")
+                ctx.check(back is None, "termination/while-progress", cons,
+                          "an iteration of this loop can complete without consuming input or advancing its counter: a crafted message keeps the decoder spinning",
+                          witness=g.describe(back))
     ctx.floor("termination/loops", n_loops, 8, "loops in the decode family")
 
 
@@ -665,6 +838,34 @@ def _is_unsigned_local(f, sz: Sizes, name: str) -> bool:
     return False
 
 
+def _hop_bound(ctx, fam, f, g, lp, heads, s, scons, body_ids) -> bool:
+    """The jump at node ``s`` is dominated by `counter <= CONST`, the counter is incremented by a positive constant on every way from the
+    loop head to the jump, starts from a constant before the loop and is written nowhere else; exceeding the bound raises an allowed exception."""
+    for t, lab in g.edge_guards(s):
+        fm = lincmp(g.node(t).ast, fam.consts, negate=(lab == "F"))
+        if fm is None or len(fm[0]) != 1:
+            continue
+        (ctr, coef), = tuple(fm[0])
+        if coef != -1 or not ctr.isidentifier():
+            continue
+        bound = -fm[1]
+        incs = g.ids(lambda n: n.kind == "stmt" and isinstance(n.ast, ast.AugAssign) and isinstance(n.ast.op, ast.Add) and isinstance(n.ast.target, ast.Name) and n.ast.target.id == ctr
+                     and isinstance(n.ast.value, ast.Constant) and isinstance(n.ast.value.value, int) and n.ast.value.value >= 1 and id(n.ast) in body_ids)
+        stores = [st for st in ast.walk(f) if isinstance(st, (ast.Assign, ast.AugAssign, ast.AnnAssign, ast.For)) and any(isinstance(x, ast.Name) and x.id == ctr and isinstance(x.ctx, ast.Store) for x in ast.walk(st))]
+        inc_asts = [g.node(i).ast for i in incs]
+        others = [st for st in stores if not any(st is a for a in inc_asts)]
+        init_ok = len(others) == 1 and isinstance(others[0], ast.Assign) and id(others[0]) not in body_ids and isinstance(others[0].value, ast.Constant) and isinstance(others[0].value.value, int)
+        every = bool(incs) and g.path([d for h in heads for d, l in g.succ[h] if d not in incs], [s], avoid=incs, edge_ok=lambda a, b, l: l != "exc") is None
+        other = [d for d, l in g.succ[t] if l in ("T", "F") and l != lab]
+        raised = [g.node(i).ast for i in g.reach(other, edge_ok=lambda a, b, l: l != "exc") if g.node(i).kind == "stmt" and isinstance(g.node(i).ast, ast.Raise)]
+        esc = g.path(other, [g.exit] + heads, edge_ok=lambda a, b, l: l != "exc")
+        okr = esc is None and bool(raised) and all(r.exc is not None and _exc_allowed(fam.mod, dotted(r.exc.func if isinstance(r.exc, ast.Call) else r.exc) or "?") for r in raised)
+        if init_ok and every and okr:
+            ctx.ok("termination/pointer-hop-bound", scons, f"at most {bound} jumps: `{ctr}` starts at {others[0].value.value}, grows on every jump and exceeding the bound raises an allowed exception")
+            return True
+    return False
+
+
 def _check_pointer_loop(ctx, fam, key, f, g, lp, heads, seeks, progress, cons):
     q = fam.qual(key)
     body_ids = {id(x) for st in lp.body for x in ast.walk(st)}
@@ -688,9 +889,11 @@ def _check_pointer_loop(ctx, fam, key, f, g, lp, heads, seeks, progress, cons):
             if isinstance(te, ast.Compare) and len(te.ops) == 1 and src(te.left) == target and ((isinstance(te.ops[0], ast.In) and lab == "F") or (isinstance(te.ops[0], ast.NotIn) and lab == "T")):
                 vis = src(te.comparators[0])
                 vis_test, vis_lab = t, lab
+        if vis is None and _hop_bound(ctx, fam, f, g, lp, heads, s, scons, body_ids):
+            continue   # a hop counter bounds the number of jumps: terminates (whether the bound is acceptable is a C32 matter)
         ctx.check(vis is not None, "termination/pointer-visited-test", scons,
-                  f"the decoder jumps to offset `{target}` without first testing whether that offset was already visited: two pointers referring to each other "
-                  "(b'\\xc0\\x0c' at offset 12) make Name.decode loop forever")
+                  f"the decoder jumps to offset `{target}` without first testing whether that offset was already visited (and without a bound on the number of "
+                  "jumps): two pointers referring to each other (b'\\xc0\\x0c' at offset 12) make Name.decode loop forever")
         if vis is None:
             continue
         # the other branch raises an allowed exception
@@ -700,7 +903,7 @@ def _check_pointer_loop(ctx, fam, key, f, g, lp, heads, seeks, progress, cons):
         okr = esc is None and bool(raised) and all(r.exc is not None and _exc_allowed(fam.mod, dotted(r.exc.func if isinstance(r.exc, ast.Call) else r.exc) or "?") for r in raised)
         ctx.check(okr, "termination/pointer-visited-test", scons + " | <already visited>", "a repeated pointer target does not end decoding with ValueError", witness=g.describe(esc))
         # (b) the target is recorded before the next iteration
-        adds = g.find(lambda x: isinstance(x, ast.Call) and call_name(x) == f"{vis}.add" and [src(a) for a in x.args] == [target])
+        adds = g.find(lambda x: isinstance(x, ast.Call) and call_name(x) in (f"{vis}.add", f"{vis}.append") and [src(a) for a in x.args] == [target])
         succ = [d for d, l in g.succ[vis_test] if l == vis_lab]
         wit = must_pass(g, succ, adds, to=heads) if adds else [vis_test]
         ctx.check(bool(adds) and wit is None, "termination/pointer-recorded", scons,
@@ -708,8 +911,11 @@ def _check_pointer_loop(ctx, fam, key, f, g, lp, heads, seeks, progress, cons):
         # (c) the visited set is created once, before the loop, and only grows
         writes = [st for st in ast.walk(f) if isinstance(st, (ast.Assign, ast.AugAssign, ast.Delete)) and any(isinstance(x, ast.Name) and x.id == vis and isinstance(x.ctx, (ast.Store, ast.Del)) for x in ast.walk(st))]
         inside = [w for w in writes if id(w) in body_ids]
-        shrink = [c for c in ast.walk(f) if isinstance(c, ast.Call) and isinstance(c.func, ast.Attribute) and src(c.func.value) == vis and c.func.attr in ("clear", "discard", "remove", "pop", "difference_update")]
-        ctx.check(len(writes) == 1 and not inside and not shrink and isinstance(writes[0], ast.Assign) and isinstance(writes[0].value, ast.Call) and call_name(writes[0].value) == "set",
+        shrink = [c for c in ast.walk(f) if isinstance(c, ast.Call) and isinstance(c.func, ast.Attribute) and src(c.func.value) == vis and c.func.attr in ("clear", "discard", "remove", "pop", "difference_update", "popleft", "__delitem__")]
+        empty = len(writes) == 1 and isinstance(writes[0], ast.Assign) and (
+            (isinstance(writes[0].value, ast.Call) and call_name(writes[0].value) in ("set", "list") and not writes[0].value.args) or
+            (isinstance(writes[0].value, (ast.List, ast.Set)) and not writes[0].value.elts))
+        ctx.check(len(writes) == 1 and not inside and not shrink and empty,
                   "termination/visited-monotone", ctx.construct(q, writes[0]) if writes else q + f" | {vis}",
                   f"`{vis}` is reset or shrunk while the name is being decoded: a pointer cycle is no longer detected")
         # (d) finite pointer domain: < 2^14
@@ -767,17 +973,32 @@ def check(ctx):
     ctx.floor("family", len(fam.funcs), 30, "decode family members")
     for key in fam.funcs:
         ctx.functions.add(f"{DNS}:{fam.owner(*key) + '.' if key[0] else ''}{key[1]}")
-    check_escape(ctx, fam)
-    check_length_supplied(ctx, fam)
-    check_read_precisely(ctx, fam)
-    check_termination(ctx, fam)
-    check_protocol_handlers(ctx, mod)
+    check_escape(ctx, fam)          # one section per family member inside
+    with ctx.section("length-supplied"):
+        check_length_supplied(ctx, fam)
+    with ctx.section("readPrecisely"):
+        check_read_precisely(ctx, fam)
+    check_termination(ctx, fam)     # one section per family member inside
+    with ctx.section("protocol handlers"):
+        check_protocol_handlers(ctx, mod)
 
 
 MUTANTS = [
     Mutant("query-reads-three-bytes", DNS, "        buff = readPrecisely(strio, 4)\n        self.type, self.cls = struct.unpack(\"!HH\", buff)\n",
            "        buff = readPrecisely(strio, 3)\n        self.type, self.cls = struct.unpack(\"!HH\", buff)\n", expect_rule="escape/unpack-size"),
     Mutant("soa-format-grown", DNS, '        r = struct.unpack("!LlllL", readPrecisely(strio, 20))\n', '        r = struct.unpack("!LlllLL", readPrecisely(strio, 20))\n', expect_rule="escape/unpack-size"),
+    Mutant("wks-single-unpack-with-computed-count", DNS, "        self.address = readPrecisely(strio, 4)\n        self.protocol = struct.unpack(\"!B\", readPrecisely(strio, 1))[0]\n        self.map = readPrecisely(strio, length - 5)\n",
+           "        fields = struct.unpack(\"!4sB%ds\" % (length - 5), readPrecisely(strio, length))\n        self.address, self.protocol, self.map = fields\n", expect_rule="escape/computed-format"),
+    Mutant("sshfp-fstring-format-unguarded", DNS, "        r = struct.unpack(\"!BB\", readPrecisely(strio, 2))\n        (self.algorithm, self.fingerprintType) = r\n        self.fingerprint = readPrecisely(strio, length - 2)\n",
+           "        r = struct.unpack(f\"!BB{length - 2}s\", readPrecisely(strio, length))\n        (self.algorithm, self.fingerprintType, self.fingerprint) = r\n", expect_rule="escape/computed-format"),
+    Mutant("wks-computed-format-size-off-by-one", DNS, "        self.address = readPrecisely(strio, 4)\n        self.protocol = struct.unpack(\"!B\", readPrecisely(strio, 1))[0]\n        self.map = readPrecisely(strio, length - 5)\n",
+           "        if length < 5:\n            raise EOFError\n        fields = struct.unpack(\"!4sB%ds\" % (length - 5), readPrecisely(strio, length - 1))\n        self.address, self.protocol, self.map = fields\n",
+           expect_rule="escape/unpack-size"),
+    Mutant("hop-counter-reset-on-label", DNS, "        visited = set()\n        self.name = b\"\"\n", "        hops = 0\n        self.name = b\"\"\n",
+           more=[(DNS, "                if new_off in visited:\n                    raise ValueError(\"Compression loop in encoded name\")\n                visited.add(new_off)\n",
+                  "                hops += 1\n                if hops > 16:\n                    raise ValueError(\"Compression loop in encoded name\")\n"),
+                 (DNS, "            label = readPrecisely(strio, l)\n            if self.name == b\"\":\n", "            label = readPrecisely(strio, l)\n            hops = 0\n            if self.name == b\"\":\n")],
+           expect_rule="termination/pointer-visited-test"),
     Mutant("visited-test-dropped", DNS, "                if new_off in visited:\n                    raise ValueError(\"Compression loop in encoded name\")\n                visited.add(new_off)\n",
            "                visited.add(new_off)\n", expect_rule="termination/pointer-visited-test"),
     Mutant("visited-never-recorded", DNS, "                visited.add(new_off)\n                if off == 0:\n", "                if off == 0:\n", expect_rule="termination/pointer-recorded"),
@@ -811,6 +1032,16 @@ MUTANTS = [
 SILENT = [
     Silent("name-decode-not-in", DNS, "                if new_off in visited:\n                    raise ValueError(\"Compression loop in encoded name\")\n                visited.add(new_off)\n",
            "                if new_off not in visited:\n                    visited.add(new_off)\n                else:\n                    raise ValueError(\"Compression loop in encoded name\")\n"),
+    Silent("visited-as-list-renamed", DNS, "        visited = set()\n        self.name = b\"\"\n", "        seenOffsets = []\n        self.name = b\"\"\n",
+           more=[(DNS, "                if new_off in visited:\n                    raise ValueError(\"Compression loop in encoded name\")\n                visited.add(new_off)\n",
+                  "                if new_off in seenOffsets:\n                    raise ValueError(\"Compression loop in encoded name\")\n                seenOffsets.append(new_off)\n")]),
+    Silent("hop-counter-terminates", DNS, "        visited = set()\n        self.name = b\"\"\n", "        hops = 0\n        self.name = b\"\"\n",
+           more=[(DNS, "                if new_off in visited:\n                    raise ValueError(\"Compression loop in encoded name\")\n                visited.add(new_off)\n",
+                  "                hops += 1\n                if hops > 16:\n                    raise ValueError(\"Compression loop in encoded name\")\n")]),
+    Silent("wks-single-unpack-guarded", DNS, "        self.address = readPrecisely(strio, 4)\n        self.protocol = struct.unpack(\"!B\", readPrecisely(strio, 1))[0]\n        self.map = readPrecisely(strio, length - 5)\n",
+           "        if length < 5:\n            raise EOFError\n        fields = struct.unpack(\"!4sB%ds\" % (length - 5), readPrecisely(strio, length))\n        self.address, self.protocol, self.map = fields\n"),
+    Silent("wks-single-unpack-struct-error-converted", DNS, "        self.address = readPrecisely(strio, 4)\n        self.protocol = struct.unpack(\"!B\", readPrecisely(strio, 1))[0]\n        self.map = readPrecisely(strio, length - 5)\n",
+           "        try:\n            fields = struct.unpack(\"!4sB%ds\" % (length - 5), readPrecisely(strio, length))\n        except struct.error:\n            raise ValueError(\"short WKS record\")\n        self.address, self.protocol, self.map = fields\n"),
     Silent("query-calcsize", DNS, "        buff = readPrecisely(strio, 4)\n", "        buff = readPrecisely(strio, struct.calcsize(\"!HH\"))\n"),
     Silent("read-precisely-flipped", DNS, "    if len(buff) < l:\n        raise EOFError\n", "    if l > len(buff):\n        raise EOFError()\n"),
     Silent("loop-error-subclass", DNS, '                    raise ValueError("Compression loop in encoded name")\n', '                    raise UnicodeError("Compression loop in encoded name")\n'),
